@@ -98,6 +98,38 @@ def s9_every_dir_every_time(chk: Check, proj: Project) -> None:
     chk.ob("S9", "finders:no-table-of-compiled-patterns", tables[0].loc if tables else fmod.loc(fmod.tree), not tables,
            "the finder keeps no module-level table: the allow / forbid patterns are read from the settings for every file" if not tables else
            f"`{short(tables[0].stmt())}` keeps compiled patterns in module-level `{tables[0].g.name}` under a key that forgets whether an entry was a suffix or a regex, and its flags: a later configuration with the same pattern TEXT is judged with the earlier one's patterns (data.json exposed under allowed=['.js'] after re.compile('.js') was used)")
+    # every directory get_component_dirs() returns becomes a finder location (the only test allowed is the exact-duplicate test)
+    im, initf = proj.func("finders", "ComponentsFileSystemFinder.__init__")
+    chk.analysed(fkey(im, initf))
+    loc_loops = [lp for lp in ast.walk(initf) if isinstance(lp, ast.For) and any(isinstance(c, ast.Call) and isinstance(c.func, ast.Attribute) and c.func.attr == "append" and norm(c.func.value) == "self.locations" for c in ast.walk(lp))]
+    if not loc_loops or not isinstance(loc_loops[0].iter, ast.Name):
+        chk.undecided("S9", "finders:__init__:every-component-dir-is-a-location", im.loc(initf), "the loop that fills self.locations from a local list was not found")
+    else:
+        dv = loc_loops[0].iter.id
+        filt = []
+        todo_, seen_ = [dv], set()
+        from_dirs = False
+        while todo_:
+            nm_ = todo_.pop()
+            if nm_ in seen_:
+                continue
+            seen_.add(nm_)
+            for _s, v_ in assignments(initf, nm_):
+                if v_ is None:
+                    continue
+                if any(isinstance(c, ast.Call) and last_attr(c.func) == "get_component_dirs" for c in ast.walk(v_)):
+                    from_dirs = True
+                for comp in [x for x in ast.walk(v_) if isinstance(x, (ast.ListComp, ast.GeneratorExp, ast.SetComp))]:
+                    for g_ in comp.generators:
+                        filt += g_.ifs
+                filt += [c for c in ast.walk(v_) if isinstance(c, ast.Call) and norm(c.func) == "filter"]
+                todo_ += [x.id for x in ast.walk(v_) if isinstance(x, ast.Name) and x.id not in seen_]
+        skips_ = [x for x in ast.walk(loc_loops[0]) if isinstance(x, (ast.Continue, ast.Break))]
+        okl = from_dirs and not filt and not skips_
+        bad_ = (filt + skips_)[0] if (filt or skips_) else None
+        chk.ob("S9", "finders:__init__:every-component-dir-is-a-location", im.loc(bad_) if bad_ is not None else im.loc(loc_loops[0]), okl,
+               "self.locations receives every directory of get_component_dirs() (exact duplicates aside)" if okl else
+               (f"`{short(bad_)}` drops configured directories before they become finder locations: a string-prefix test without a path separator (`d.startswith(other)`) also drops a SIBLING that merely shares a prefix (`.../components_admin` next to `.../components`, `ui2` next to `ui`), whose allowed files are then exposed by neither find() nor list()" if bad_ is not None else "the list that fills self.locations is not derived from get_component_dirs()"))
     fm, ff = proj.func("finders", "ComponentsFileSystemFinder.find")
     chk.analysed(fkey(fm, ff))
     skips = [x for x in ast.walk(ff) if isinstance(x, (ast.Continue, ast.Break, ast.Return)) and any("searched_locations" in t for t, _p in cond_atoms(x))]
